@@ -169,6 +169,12 @@ void LinePrinter::PrintOnNewLine(const string& to_print) {
     PrintOrBuffer(&to_print[0], to_print.size());
   }
   have_blank_line_ = to_print.empty() || *to_print.rbegin() == '\n';
+  // On a smart terminal the next status line starts with a carriage return and
+  // would be drawn over an unterminated last line of output: finish that line.
+  if (smart_terminal_ && !have_blank_line_) {
+    PrintOrBuffer("\n", 1);
+    have_blank_line_ = true;
+  }
 }
 
 void LinePrinter::SetConsoleLocked(bool locked) {
